@@ -325,6 +325,15 @@ Theorem C04_rewrite_rendered : forall hi b keys styles he fe erows scols ecols,
                     (forall order', Permutation order' (style_keys d') -> write_ssa d' order' = Ok data).
 Proof. exact rewrite_rendered_events. Qed.
 Print Assumptions C04_rewrite_rendered.
+(* the same for every value of the shape the reading theorems return (C04_read_rendered, C04_read_sections, ...):
+   rendered_doc b sts evs = mkAdoc (Some b) (styles_map sts) (map (fun ev => event_item ev (styles_map sts)) evs) *)
+Theorem C04_rewrite_reader_image : forall b sts evs order, info_ok b -> Forall style_repr sts ->
+  ~ In n_star_default (map ay_name sts) -> evs <> [] -> Forall event_image_ok evs ->
+  Permutation order (style_keys (rendered_doc b sts evs)) ->
+  exists data d', write_ssa (rendered_doc b sts evs) order = Ok data /\ read_ssa data = Ok d' /\
+                  (forall order', Permutation order' (style_keys d') -> write_ssa d' order' = Ok data).
+Proof. exact rewrite_reader_image. Qed.
+Print Assumptions C04_rewrite_reader_image.
 (* the item an event denotes is representable under conditions on the event alone *)
 Theorem C04_event_item_representable : forall ev m, event_image_ok ev -> ~ In [] (map fst m) -> ~ In n_star_default (map fst m) ->
   item_repr (map fst m) (event_item ev m).
